@@ -158,7 +158,7 @@ Example C20_ex_monitor :
   (exists s, replay init ex_history = Some (s, true) /\ final_agree s ex_final = true) /\
   o_ok_d (orun ex_history_old) = false.
 Proof.
-  destruct ex_history_agrees as (H1 & _). split; [exact (model_agrees_hist _ _ H1)|exact (proj2 ex_history_old_rejected)].
+  destruct ex_history_agrees as (H1 & _). split; [exact (model_agrees_hist _ _ _ _ H1)|exact (proj2 ex_history_old_rejected)].
 Qed.
 
 (** ---- With a configured account key ([AccountKeyPEM]; model [Account.KeyPem]: any number of
